@@ -43,7 +43,7 @@ m = next(n for n in fn.body if isinstance(n, ast.Match))
 if ast.unparse(m.subject) != 'args.command': raise Untranslatable('match subject')
 print('(* GENERATED from cli/main.py:main *)')
 print('From Coq Require Import List String. Import ListNotations. Open Scope string_scope.')
-print('Require Import CliIR.')
+print('From Cli Require Import CliIR.')
 print('Definition arms : list (option string * list stmt) := [')
 rows = []
 for c in m.cases:
